@@ -22,8 +22,24 @@ import (
 // source ever sets; a source value whose fourth field is a plain int makes
 // overlayStruct return an error (stacking failure).
 type Cfg struct {
-	A, B, C int
-	T       time.Time
+	A int
+	N struct{ B int }  // a nested struct
+	P *struct{ C int } // a pointer to a struct (the defaults always point somewhere)
+	T time.Time
+}
+
+func newCfg(a, b, c int) *Cfg {
+	x := &Cfg{A: a, P: &struct{ C int }{C: c}}
+	x.N.B = b
+	return x
+}
+
+func (c *Cfg) b() int { return c.N.B }
+func (c *Cfg) c() int {
+	if c.P == nil {
+		return -1
+	}
+	return c.P.C
 }
 
 var errVerify = fmt.Errorf("harness: A > B")
@@ -41,7 +57,7 @@ func current() *runner {
 
 // Verify implements dials.VerifiedConfig.
 func (c *Cfg) Verify() error {
-	ok := c.A <= c.B
+	ok := c.A <= c.N.B
 	if r := current(); r != nil {
 		r.mu.Lock()
 		r.verifs = append(r.verifs, verifCall{cfg: *c, ok: ok})
@@ -56,6 +72,13 @@ func (c *Cfg) Verify() error {
 type sv struct {
 	A, B, C *int
 	Bad     bool
+	// the nested struct / the pointed-to struct is present in the value
+	// although its leaf is unset (which sets nothing)
+	NEmpty, PEmpty bool
+}
+
+func toSV(v svJSON) sv {
+	return sv{A: ip(v.A), B: ip(v.B), C: ip(v.C), Bad: v.Bad, NEmpty: v.NE, PEmpty: v.PE}
 }
 
 type verifCall struct {
@@ -342,25 +365,48 @@ func (s watchingSource) Watch(ctx context.Context, t *dials.Type, wa dials.Watch
 	return nil
 }
 
-var badType = func() reflect.Type {
-	ip := reflect.TypeOf((*int)(nil))
-	return reflect.StructOf([]reflect.StructField{
-		{Name: "A", Type: ip}, {Name: "B", Type: ip}, {Name: "C", Type: ip}, {Name: "T", Type: reflect.TypeOf(0)}})
-}()
+// a struct type like the pointerified config type except for its last field
+// (T), which is a plain int: overlaying it fails (stacking error)
+func badTypeOf(t reflect.Type) reflect.Type {
+	var fs []reflect.StructField
+	for i := 0; i < t.NumField(); i++ {
+		f := t.Field(i)
+		sf := reflect.StructField{Name: f.Name, Type: f.Type}
+		if f.Name == "T" {
+			sf.Type = reflect.TypeOf(0)
+		}
+		fs = append(fs, sf)
+	}
+	return reflect.StructOf(fs)
+}
 
 func mkValue(t *dials.Type, v sv) reflect.Value {
-	var p reflect.Value
+	typ := t.Type()
 	if v.Bad {
-		p = reflect.New(badType)
-		p.Elem().Field(3).SetInt(1)
-	} else {
-		p = reflect.New(t.Type())
+		typ = badTypeOf(typ)
 	}
-	for i, f := range []*int{v.A, v.B, v.C} {
-		if f != nil {
-			x := *f
-			p.Elem().Field(i).Set(reflect.ValueOf(&x))
+	p := reflect.New(typ)
+	e := p.Elem()
+	if v.Bad {
+		e.FieldByName("T").SetInt(1)
+	}
+	if v.A != nil {
+		x := *v.A
+		e.FieldByName("A").Set(reflect.ValueOf(&x))
+	}
+	inner := func(field string, leaf *int, present bool) {
+		if leaf == nil && !present {
+			return
 		}
+		f := e.FieldByName(field) // *struct{ leaf *int }
+		n := reflect.New(f.Type().Elem())
+		if leaf != nil {
+			x := *leaf
+			n.Elem().Field(0).Set(reflect.ValueOf(&x))
+		}
+		f.Set(n)
 	}
+	inner("N", v.B, v.NEmpty)
+	inner("P", v.C, v.PEmpty)
 	return p
 }
